@@ -123,9 +123,13 @@ def gen_target(rng, name, names, wild):
     return t
 
 
-def gen_package(rng, wild=True):
+def gen_package(rng, wild=True, big=False):
     n = 1 + rng.below(5)
     names = rng.sample(NAMES, n)
+    if big:
+        # a package file larger than any scanner / reader buffer (4 KiB, 64 KiB): every loader must still deliver every target
+        n = 40 + rng.below(90)
+        names = ["t%03d" % k for k in range(n)]
     if wild and rng.chance(1, 10):
         names[rng.below(n)] = rng.choice(ODD_NAMES)
     if wild and n > 1 and rng.chance(1, 12):
@@ -529,8 +533,8 @@ def is_empty_field(k, v):
 
 
 # ------------------------------------------------------------------ (1) cross-format agreement
-def build_xcase(rng, base, i, wild):
-    d = gen_package(rng, wild)
+def build_xcase(rng, base, i, wild, big=False):
+    d = gen_package(rng, wild, big)
     pkg = rng.choice(PKG_PATHS)
     case = {"kind": "xformat", "id": i, "pkg": pkg, "dto": d, "files": {}}
     for fmt, (fn, rend) in RENDER.items():
@@ -1627,7 +1631,7 @@ def run(out, tier):
         n_x, batch = 300 * vol, 300
         for b0 in range(0, n_x, batch):
             bdir = os.path.join(base, "xf%d" % b0)
-            cases = [build_xcase(rng, bdir, i, i % 3 != 0) for i in range(b0, min(n_x, b0 + batch))]
+            cases = [build_xcase(rng, bdir, i, i % 3 != 0, big=(i % 50 == 7)) for i in range(b0, min(n_x, b0 + batch))]
             eval_xformat(out, h, drv, bdir, cases, findings, st)
             xcases_all += cases[:300] if b0 == 0 else []
             shutil.rmtree(bdir, ignore_errors=True)
